@@ -84,7 +84,7 @@ func File(vfs fs.FS, filename string, src interface{}) (text []byte, changed boo
 		return text, false, nil
 
 	default:
-		panic("unreachable")
+		return nil, false, fmt.Errorf("format: %s: unknown source language", filename)
 	}
 }
 
